@@ -73,9 +73,11 @@ type JobResult struct {
 	SolverErrors []string              `json:"solver_errors"`
 	Samples      []Sample              `json:"samples"`
 	Wall         float64               `json:"wall_s"`
+	CPU          float64               `json:"cpu_s"`
 	Transcripts  []Transcript          `json:"-"`
 	mu           sync.Mutex
 	inflight     int
+	busy         time.Duration
 	started      time.Time
 	fn           *ssa.Function
 	inits        []*ssa.Function
@@ -96,37 +98,57 @@ type Explorer struct {
 	prog    *ssa.Program
 	mu      sync.Mutex
 	cond    *sync.Cond
-	queue   []workItem
+	order   []*JobResult // jobs in submission order; work of earlier jobs goes first
+	stacks  map[*JobResult][]workItem
+	first   int
 	active  int
 	timeout int
+	workers int
 	record  int // transcripts to keep per job
 }
 
 func (e *Explorer) push(items ...workItem) {
+	if len(items) == 0 {
+		return
+	}
 	e.mu.Lock()
-	e.queue = append(e.queue, items...)
+	for _, it := range items {
+		e.stacks[it.jr] = append(e.stacks[it.jr], it)
+	}
 	e.mu.Unlock()
 	e.cond.Broadcast()
 }
 
+// pop takes work from the earliest job that has any (depth first inside a
+// job), so jobs run essentially one after the other with all workers.
 func (e *Explorer) pop() (workItem, bool) {
 	e.mu.Lock()
 	defer e.mu.Unlock()
-	for len(e.queue) == 0 {
+	for {
+		for e.first < len(e.order) && len(e.stacks[e.order[e.first]]) == 0 && e.order[e.first].inflight == 0 {
+			e.first++
+		}
+		for i := e.first; i < len(e.order); i++ {
+			st := e.stacks[e.order[i]]
+			if len(st) > 0 {
+				it := st[len(st)-1]
+				e.stacks[e.order[i]] = st[:len(st)-1]
+				e.active++
+				it.jr.inflight++
+				return it, true
+			}
+		}
 		if e.active == 0 {
 			return workItem{}, false
 		}
 		e.cond.Wait()
 	}
-	it := e.queue[len(e.queue)-1]
-	e.queue = e.queue[:len(e.queue)-1]
-	e.active++
-	return it, true
 }
 
-func (e *Explorer) done() {
+func (e *Explorer) done(jr *JobResult) {
 	e.mu.Lock()
 	e.active--
+	jr.inflight--
 	e.mu.Unlock()
 	e.cond.Broadcast()
 }
@@ -148,7 +170,7 @@ func (e *Explorer) worker(wg *sync.WaitGroup) {
 			return
 		}
 		e.runPath(m, it)
-		e.done()
+		e.done(it.jr)
 	}
 }
 
@@ -171,7 +193,7 @@ func (e *Explorer) runPath(m *Machine, it workItem) {
 	}
 	jr.Paths++
 	if (jr.job.Opt.MaxPaths > 0 && jr.Paths > jr.job.Opt.MaxPaths) ||
-		(jr.job.Opt.MaxWallS > 0 && time.Since(jr.started) > time.Duration(jr.job.Opt.MaxWallS)*time.Second) {
+		(jr.job.Opt.MaxWallS > 0 && jr.busy > time.Duration(jr.job.Opt.MaxWallS)*time.Second*time.Duration(e.workers)) {
 		jr.Truncated = true
 		jr.Paths--
 		jr.mu.Unlock()
@@ -179,6 +201,7 @@ func (e *Explorer) runPath(m *Machine, it workItem) {
 	}
 	rec := len(jr.Transcripts) < e.record && idx < e.record
 	jr.mu.Unlock()
+	pathStart := time.Now()
 
 	opt := jr.job.Opt
 	m.opt = &opt
@@ -264,6 +287,7 @@ func (e *Explorer) runPath(m *Machine, it workItem) {
 
 	jr.mu.Lock()
 	defer jr.mu.Unlock()
+	jr.busy += time.Since(pathStart)
 	jr.Steps += m.steps
 	jr.Obligs += m.Obligs
 	jr.Discharged += m.Discharged
@@ -324,10 +348,11 @@ func (e *Explorer) runPath(m *Machine, it workItem) {
 		jr.Transcripts = append(jr.Transcripts, tr)
 	}
 	jr.Wall = time.Since(jr.started).Seconds()
+	jr.CPU = jr.busy.Seconds()
 }
 
 func runJobs(prog *ssa.Program, pkgs map[string]*ssa.Package, jobs []Job, workers, timeout, record int) ([]*JobResult, error) {
-	e := &Explorer{prog: prog, timeout: timeout, record: record}
+	e := &Explorer{prog: prog, timeout: timeout, record: record, workers: workers}
 	e.cond = sync.NewCond(&e.mu)
 	var results []*JobResult
 	for i := range jobs {
@@ -366,9 +391,10 @@ func runJobs(prog *ssa.Program, pkgs map[string]*ssa.Package, jobs []Job, worker
 		}
 		results = append(results, jr)
 	}
-	// queue in reverse so that jobs start in order
-	for i := len(results) - 1; i >= 0; i-- {
-		e.queue = append(e.queue, workItem{jr: results[i]})
+	e.stacks = map[*JobResult][]workItem{}
+	for _, jr := range results {
+		e.order = append(e.order, jr)
+		e.stacks[jr] = []workItem{{jr: jr}}
 	}
 	var wg sync.WaitGroup
 	for w := 0; w < workers; w++ {
